@@ -2618,3 +2618,61 @@ func c10R7(c *Ctx, r *Report) {
 	r.Check(bad == "" && nCases >= 2, rule, pred.Name(), "only literals, parentheses, unary and binary operators are folded", c.pos(pred.Decl.Pos()),
 		"the folding predicate admits "+bad+": a variable's compile-time value is flow-insensitive (see the C04.R1 findings), so folding it replaces a run-time value by a stale constant")
 }
+
+// ---- C06.R8: no mutable alias of immutable shared storage --------------------------------------------------------
+
+func init() {
+	lateInits = append(lateInits, func() {
+		props["C06"].Quick = append(props["C06"].Quick, c06R8)
+		props["C06"].Explanation += " (R8) dynamic arrays and maps are handles: the type checker's variable-declaration, assignment and call-argument checks each consult the alias check that rejects handing the storage of an immutable place to a mutable name (the call-argument site is a recorded finding: a by-value []T / map parameter can still be written through)."
+	})
+}
+
+func c06R8(c *Ctx, r *Report) {
+	const rule = "C06.R8"
+	r.Describe(rule, "typechecker: checkVarDecl (non-const items), checkAssignStmt (plain =) and validateCallArgumentTypes (by-value parameters) call a helper that tests the value's type for dynamic array / map and the value's place with checkMutability, and reports")
+	cm := c.LookupFn(pkgTC, "checkMutability")
+	bagAdd := c.LookupFn("internal/diagnostics", "(*DiagnosticBag).Add")
+	if !r.Anchor(rule, cm != nil && bagAdd != nil, "typechecker.checkMutability / DiagnosticBag.Add") {
+		return
+	}
+	// the alias helper: calls checkMutability, mentions MapType and ArrayType, reports
+	var helper *Fn
+	for _, fn := range c.AllFns(pkgTC) {
+		info := fn.Info()
+		if !nodeCallsDeep(info, fn.Decl.Body, cm.Obj) || !nodeCallsDeep(info, fn.Decl.Body, bagAdd.Obj) {
+			continue
+		}
+		hasMap, hasArr := false, false
+		ast.Inspect(fn.Decl.Body, func(x ast.Node) bool {
+			if cc, ok := x.(*ast.CaseClause); ok {
+				for _, t := range caseTypes(info, cc) {
+					if nt := namedOf(t); nt != nil {
+						if nt.Obj().Name() == "MapType" {
+							hasMap = true
+						}
+						if nt.Obj().Name() == "ArrayType" {
+							hasArr = true
+						}
+					}
+				}
+			}
+			return true
+		})
+		if hasMap && hasArr {
+			helper = fn
+		}
+	}
+	for _, site := range []struct{ name, what, why string }{
+		{"checkVarDecl", "let-bindings", "`const a := [1, 2, 3]; let b := a; b[0] = 9;` changes a[0]"},
+		{"checkAssignStmt", "assignments", "`c = a` with a constant dynamic array a lets c[0] = 9 change a"},
+		{"validateCallArgumentTypes", "by-value call arguments", "`fn poke(x: []i32) { x[0] = 9; }` called with a constant array changes the constant"},
+	} {
+		fn := c.LookupFn(pkgTC, site.name)
+		if !r.Anchor(rule, fn != nil, "typechecker."+site.name) {
+			continue
+		}
+		r.Check(helper != nil && nodeCallsDeep(fn.Info(), fn.Decl.Body, helper.Obj), rule, fn.Name(), site.what+" do not alias immutable dynamic arrays / maps", c.pos(fn.Decl.Pos()),
+			"the storage of an immutable dynamic array or map is handed to a mutable name without a copy: "+site.why)
+	}
+}
